@@ -124,10 +124,15 @@ func execRace(c fw.Case) (string, *fw.OracleFailure) {
 					switch r.Intn(9) {
 					case 0, 1: // burst of ordinary messages
 						for k := 0; k < 1+r.Intn(5); k++ {
-							if r.Bool() {
+							switch r.Intn(4) {
+							case 0:
 								send(0x0002, nil)
-							} else {
+							case 1:
 								send(0x0200, r.Bytes(28))
+							case 2: // authentication: the reply is computed by parsing the body into the handler object
+								send(0x0102, []byte(key))
+							default: // multimedia upload in one piece: the reply echoes the multimedia id parsed from the body
+								send(0x0801, append([]byte{0, 0, byte(w), byte(round)}, make([]byte, 32)...))
 							}
 						}
 					case 2: // a sub-packaged transfer, possibly incomplete
